@@ -350,3 +350,127 @@ Proof.
 Qed.
 
 End DecWf.
+
+(* ---------------------------------------------------------------- how much a decoder consumes vs. what re-encoding produces *)
+
+Lemma with_hdr_len tag ty len body bs : with_hdr tag ty len body = Some bs -> zlen bs = 8 + zlen body.
+Proof.
+  intros H. apply with_hdr_some in H as (h & Hh & ->). unfold hdr in Hh.
+  destruct ((0 <=? len) && (len <? TWO32)); [|discriminate].
+  assert (h = be_enc 3 tag ++ [ty] ++ be_enc 4 len) by congruence; subst h.
+  rewrite !zlen_app, !zlen_be_enc. unfold zlen. cbn. lia.
+Qed.
+
+Lemma dec_u32_pad_used bs u r : dec_u32_pad bs = Some (u, r) -> exists used, bs = used ++ r /\ zlen used = 8.
+Proof.
+  unfold dec_u32_pad. intros H.
+  destruct (take_exact 4 bs) as [[x r1]|] eqn:E1; [|discriminate].
+  destruct (take_exact 4 r1) as [[p r2]|] eqn:E2; [|discriminate].
+  destruct (be_dec p =? 0); [|discriminate]. injection H as <- <-.
+  apply take_exact_spec in E1 as [-> L1]. apply take_exact_spec in E2 as [-> L2].
+  exists (x ++ p). split; [rewrite <- app_assoc; reflexivity|rewrite zlen_app; lia].
+Qed.
+
+Lemma dec_padded_used len bs x r : dec_padded len bs = Some (x, r) ->
+  exists used, bs = used ++ r /\ zlen used = len + pad_len len /\ zlen x = len.
+Proof.
+  unfold dec_padded. intros H.
+  destruct (take_exact len bs) as [[y r1]|] eqn:E1; [|discriminate].
+  destruct (take_exact (pad_len len) r1) as [[p r2]|] eqn:E2; [|discriminate].
+  destruct (all_zero p); [|discriminate]. injection H as <- <-.
+  apply take_exact_spec in E1 as [-> L1]. apply take_exact_spec in E2 as [-> L2].
+  exists (y ++ p). split; [rewrite <- app_assoc; reflexivity|]. rewrite zlen_app. lia.
+Qed.
+
+Section DecSound.
+Variable mem : Z -> bool.
+
+Theorem dec_sound t tag bs p rest :
+  tag_ok tag = true -> bytes_ok bs = true -> zlen bs < TWO31 ->
+  dec_prim mem t tag bs = Some (p, rest) ->
+  exists used bs', bs = used ++ rest /\ 8 <= zlen used /\
+                   enc_prim tag p = Some bs' /\ zlen bs' <= zlen used + 8 /\
+                   wf_prim mem p = true /\ ptype_of p = t.
+Proof.
+  intros Ht Hok Hsmall H.
+  destruct (dec_wf mem t tag bs p rest Hok Hsmall H) as [Hwf Hty].
+  destruct (prim_roundtrip mem tag p Ht Hwf) as (bs' & Henc & _).
+  unfold dec_prim in H.
+  destruct (dec_hdr tag (type_code t) bs) as [[len r]|] eqn:Eh; [|discriminate].
+  destruct (dec_hdr_spec _ _ _ _ _ Eh Hok) as (h & -> & Lh & Hlen & Hr).
+  assert (Hgoal : forall used0, r = used0 ++ rest -> zlen bs' <= 8 + zlen used0 + 8 ->
+            exists used bs'0, h ++ r = used ++ rest /\ 8 <= zlen used /\ enc_prim tag p = Some bs'0 /\
+                              zlen bs'0 <= zlen used + 8 /\ wf_prim mem p = true /\ ptype_of p = t).
+  { intros used0 -> Hb. exists (h ++ used0), bs'. rewrite app_assoc, zlen_app.
+    pose proof (zlen_nonneg used0). repeat split; try assumption; lia. }
+  destruct t.
+  - destruct (negb (len =? 4)); [discriminate|].
+    destruct (dec_u32_pad r) as [[u r']|] eqn:Eu; [|discriminate]. injection H as <- <-.
+    destruct (dec_u32_pad_used _ _ _ Eu) as (used0 & Hu & Lu). apply (Hgoal used0 Hu).
+    cbn [enc_prim] in Henc. destruct ((- TWO31 <=? _) && _); [|discriminate].
+    apply with_hdr_len in Henc. rewrite zlen_app, !zlen_be_enc in Henc. lia.
+  - destruct (negb (len =? 8)); [discriminate|].
+    destruct (take_exact 8 r) as [[x r']|] eqn:Ex; [|discriminate]. injection H as <- <-.
+    apply take_exact_spec in Ex as [Hx Lx]. apply (Hgoal x Hx).
+    cbn [enc_prim] in Henc. destruct ((- TWO63 <=? _) && _); [|discriminate].
+    apply with_hdr_len in Henc. rewrite zlen_be_enc in Henc. lia.
+  - destruct (negb (len mod 8 =? 0)) eqn:Em; [discriminate|].
+    destruct (len =? 0) eqn:E0; [discriminate|].
+    destruct (take_exact len r) as [[x r']|] eqn:Ex; [|discriminate]. injection H as <- <-.
+    apply take_exact_spec in Ex as [Hx Lx]. apply (Hgoal x Hx).
+    cbn [enc_prim] in Henc. apply with_hdr_len in Henc.
+    cbn [wf_prim] in Hwf.
+    (* re-use the bound established in dec_wf: 8 * big_words s <= len + 8 *)
+    subst r. apply bytes_ok_app in Hr as [Hxok _].
+    pose proof (be_dec_bound x Hxok) as Hb. rewrite Lx in Hb.
+    pose proof (signed_range len (be_dec x) ltac:(lia) Hb) as Hs.
+    set (s := to_signed len (be_dec x)) in *.
+    assert (Hhalf : pow256 len / 2 = 2 ^ (8 * len - 1)).
+    { unfold pow256. change 256 with (2 ^ 8). rewrite <- Z.pow_mul_r by lia.
+      replace (8 * len) with (Z.succ (8 * len - 1)) at 1 by lia.
+      rewrite Z.pow_succ_r by lia. rewrite Z.mul_comm, Z.div_mul by lia. reflexivity. }
+    rewrite Hhalf in Hs.
+    assert (Hbl : bitlen (Z.abs s) <= 8 * len).
+    { unfold bitlen. destruct (Z.eqb_spec (Z.abs s) 0); [lia|].
+      assert (Z.abs s <= 2 ^ (8 * len - 1)) by lia.
+      assert (Z.log2 (Z.abs s) <= Z.log2 (2 ^ (8 * len - 1))) by (apply Z.log2_le_mono; lia).
+      rewrite Z.log2_pow2 in * by lia. lia. }
+    assert (bitlen (Z.abs s) / 64 <= (8 * len) / 64) by (apply Z.div_le_mono; lia).
+    assert ((8 * len) / 64 = len / 8) by (change 64 with (8 * 8); apply Z.div_mul_cancel_l; lia).
+    assert (8 * (len / 8) <= len) by (apply Z.mul_div_le; lia).
+    assert (zlen (big_bytes s) = 8 * big_words s).
+    { unfold big_bytes. rewrite zlen_be_enc. pose proof (big_words_bound s). cbn zeta in *. lia. }
+    unfold big_words in *. lia.
+  - destruct (negb (len =? 4)); [discriminate|].
+    destruct (dec_u32_pad r) as [[u r']|] eqn:Eu; [|discriminate].
+    destruct (mem u); [|discriminate]. injection H as <- <-.
+    destruct (dec_u32_pad_used _ _ _ Eu) as (used0 & Hu & Lu). apply (Hgoal used0 Hu).
+    cbn [enc_prim] in Henc. destruct ((0 <=? _) && _); [|discriminate].
+    apply with_hdr_len in Henc. rewrite zlen_app, !zlen_be_enc in Henc. lia.
+  - destruct (take_exact 8 r) as [[x r']|] eqn:Ex; [|discriminate].
+    apply take_exact_spec in Ex as [Hx Lx].
+    assert (Hb : forall b, p = VBool b -> zlen bs' <= 8 + zlen x + 8).
+    { intros b ->. cbn [enc_prim] in Henc. apply with_hdr_len in Henc. rewrite zlen_be_enc in Henc. lia. }
+    destruct (be_dec x =? 1); [injection H as <- <-; apply (Hgoal x Hx); eapply Hb; reflexivity|].
+    destruct (be_dec x =? 0); [injection H as <- <-; apply (Hgoal x Hx); eapply Hb; reflexivity|discriminate].
+  - destruct (dec_padded len r) as [[x r']|] eqn:Ex; [|discriminate].
+    destruct (forallb ascii_ok x) eqn:Ea; [|discriminate]. injection H as <- <-.
+    destruct (dec_padded_used _ _ _ _ Ex) as (used0 & Hu & Lu & Lx). apply (Hgoal used0 Hu).
+    cbn [enc_prim] in Henc. rewrite Ea in Henc. apply with_hdr_len in Henc.
+    rewrite zlen_app, zpad_length, Lx in Henc. lia.
+  - destruct (dec_padded len r) as [[x r']|] eqn:Ex; [|discriminate]. injection H as <- <-.
+    destruct (dec_padded_used _ _ _ _ Ex) as (used0 & Hu & Lu & Lx). apply (Hgoal used0 Hu).
+    cbn [enc_prim] in Henc. apply with_hdr_len in Henc.
+    rewrite zlen_app, zpad_length, Lx in Henc. lia.
+  - destruct (negb (len =? 8)); [discriminate|].
+    destruct (take_exact 8 r) as [[x r']|] eqn:Ex; [|discriminate]. injection H as <- <-.
+    apply take_exact_spec in Ex as [Hx Lx]. apply (Hgoal x Hx).
+    cbn [enc_prim] in Henc. destruct ((- TWO63 <=? _) && _); [|discriminate].
+    apply with_hdr_len in Henc. rewrite zlen_be_enc in Henc. lia.
+  - destruct (negb (len =? 4)); [discriminate|].
+    destruct (dec_u32_pad r) as [[u r']|] eqn:Eu; [|discriminate]. injection H as <- <-.
+    destruct (dec_u32_pad_used _ _ _ Eu) as (used0 & Hu & Lu). apply (Hgoal used0 Hu).
+    cbn [enc_prim] in Henc. destruct ((0 <=? _) && _); [|discriminate].
+    apply with_hdr_len in Henc. rewrite zlen_app, !zlen_be_enc in Henc. lia.
+Qed.
+End DecSound.
